@@ -2,15 +2,15 @@
 # usage: seed_round.sh <dir with one sub-directory per delivered change> [jobs]
 # copies each delivered change into /verif/seeded/<name>/ and evaluates it with seedeval.sh, <jobs> at a time.
 # With VERIF_HOME=<frozen copy of /verif> the checks run from the copy.
-src=$1; jobs=${2:-6}
-ls "$src" | sort > /tmp/seed_round_list.txt
+src=$1; jobs=${2:-6}; LIST=$(mktemp /tmp/seed_round_list.XXXXXX)
+ls "$src" | sort > $LIST
 n=0
 while read d; do
   [ -f "$src/$d/patch.diff" ] && [ -f "$src/$d/seed_demo.rs" ] || { echo "$d: incomplete delivery"; continue; }
   mkdir -p /verif/seeded/$d; cp "$src/$d/patch.diff" "$src/$d/seed_demo.rs" /verif/seeded/$d/; [ -f "$src/$d/NOTES.md" ] && cp "$src/$d/NOTES.md" /verif/seeded/$d/
   slot=$((n % jobs)); n=$((n+1))
-  ( CARGO_TARGET_DIR=/tmp/seedeval-target-$slot /verif/selftest/seedeval.sh /verif/seeded/$d > /tmp/seedeval.$d.log 2>&1; echo "$d: $(tail -1 /verif/seeded/$d/EVAL.txt)" ) &
+  ( CARGO_TARGET_DIR=/tmp/seedeval-target-${SLOT_PREFIX:-}$slot /verif/selftest/seedeval.sh /verif/seeded/$d > /tmp/seedeval.$d.log 2>&1; echo "$d: $(tail -1 /verif/seeded/$d/EVAL.txt)" ) &
   if [ $((n % jobs)) -eq 0 ]; then wait; fi
-done < /tmp/seed_round_list.txt
+done < $LIST
 wait
 echo done
